@@ -33,6 +33,11 @@ Definition set_len_counts_duplicates : bool := false.
    list counts as "no datums", as in the witness set and in the ledger (after fixes/C09-empty-datums.patch) *)
 Definition empty_datums_hashed : bool := false.
 
+(* `true` = calc_script_data_hash takes the languages in use from everything the sub-builders have REGISTERED
+   (get_used_plutus_lang_versions; the code as found); `false` = only from the witnesses it hashes (after
+   fixes/C09-stale-input-language.patch: used_langs.retain(..)) *)
+Definition stale_langs_counted : bool := false.
+
 (* ------------------------------------------------------------------ Plutus data, lists *)
 
 (* a PlutusData value: its identity class under the derived Ord (what the BTreeSet-based de-duplication looks at)
@@ -174,16 +179,34 @@ Definition collect (ws : list witness) : list script * option plutus_list * rede
 (* ------------------------------------------------------------------ witness set *)
 
 Record witness_set := mk_ws {
+  ws_vkeys : option bytes;                   (* a non-empty Vkeywitnesses collection, already encoded (set_vkeys ignores an empty one) *)
+  ws_native : option (list bytes);           (* NativeScripts: each script as it is written (native scripts keep no original bytes) *)
+  ws_bootstraps : option bytes;              (* a non-empty BootstrapWitnesses collection, already encoded *)
   ws_plutus_scripts : option (list script);
   ws_plutus_data : option plutus_list;
   ws_redeemers : option redeemers }.
-Definition ws_new : witness_set := mk_ws None None None.
+Definition ws_new : witness_set := mk_ws None None None None None None.
+(* NativeScripts::deduplicated_clone: first occurrence of every script *)
+Fixpoint dedup_bytes_from (seen : list bytes) (l : list bytes) : list bytes :=
+  match l with
+  | [] => []
+  | x :: t => if existsb (bytes_eqb x) seen then dedup_bytes_from seen t else x :: dedup_bytes_from (x :: seen) t
+  end.
+Definition set_vkeys (w : witness_set) (v : bytes) : witness_set :=
+  mk_ws (Some v) (ws_native w) (ws_bootstraps w) (ws_plutus_scripts w) (ws_plutus_data w) (ws_redeemers w).
+Definition set_bootstraps (w : witness_set) (v : bytes) : witness_set :=
+  mk_ws (ws_vkeys w) (ws_native w) (Some v) (ws_plutus_scripts w) (ws_plutus_data w) (ws_redeemers w).
+Definition set_native_scripts (w : witness_set) (l : list bytes) : witness_set :=
+  if is_nil l then w
+  else mk_ws (ws_vkeys w) (Some (dedup_bytes_from [] l)) (ws_bootstraps w) (ws_plutus_scripts w) (ws_plutus_data w) (ws_redeemers w).
 Definition set_plutus_scripts (w : witness_set) (s : list script) : witness_set :=
-  if is_nil s then w else mk_ws (Some (dedup_scripts s)) (ws_plutus_data w) (ws_redeemers w).
+  if is_nil s then w
+  else mk_ws (ws_vkeys w) (ws_native w) (ws_bootstraps w) (Some (dedup_scripts s)) (ws_plutus_data w) (ws_redeemers w).
 Definition set_plutus_data (w : witness_set) (d : plutus_list) : witness_set :=
-  if is_nil (pl_elems d) then w else mk_ws (ws_plutus_scripts w) (Some (pl_deduplicated_clone d)) (ws_redeemers w).
+  if is_nil (pl_elems d) then w
+  else mk_ws (ws_vkeys w) (ws_native w) (ws_bootstraps w) (ws_plutus_scripts w) (Some (pl_deduplicated_clone d)) (ws_redeemers w).
 Definition set_redeemers (w : witness_set) (r : redeemers) : witness_set :=
-  mk_ws (ws_plutus_scripts w) (ws_plutus_data w) (Some r).
+  mk_ws (ws_vkeys w) (ws_native w) (ws_bootstraps w) (ws_plutus_scripts w) (ws_plutus_data w) (Some r).
 
 Definition scripts_view (v : lang) (l : list script) : list script := filter (fun s => lang_eqb (sc_lang s) v) l.
 Definition enc_script (s : script) : bytes := encode_head 2 (len (sc_bytes s)) ++ sc_bytes s.
@@ -191,16 +214,23 @@ Definition enc_scripts_set_by_version (v : lang) (l : list script) : bytes :=
   encode_head 6 258 ++ encode_head 4 (len (scripts_view v l)) ++ flat_map enc_script (scripts_view v l).
 Definition has_version (v : lang) (l : list script) : bool := existsb (fun s => lang_eqb (sc_lang s) v) l.
 
-(* the fields the serializer writes, in the order it writes them (keys 3, 6, 7, 4, 5; the builder never sets
-   vkeys / native scripts / bootstraps in get_witness_set when there are none, and the scenarios have none) *)
-Definition ws_fields (w : witness_set) : list (N * bytes) :=
+(* NativeScripts::serialize_as_set(false): tag 258, definite array *)
+Definition enc_native_set (l : list bytes) : bytes := encode_head 6 258 ++ encode_head 4 (len l) ++ concat l.
+
+(* the fields the serializer writes, in the order it writes them: keys 0, 1, 2, 3, 6, 7, 4, 5 *)
+Definition early_fields (w : witness_set) : list (N * bytes) :=
+  (match ws_vkeys w with Some v => [(0, v)] | None => [] end) ++
+  (match ws_native w with Some l => if is_nil l then [] else [(1, enc_native_set l)] | None => [] end) ++
+  (match ws_bootstraps w with Some v => [(2, v)] | None => [] end) ++
   (match ws_plutus_scripts w with
    | Some l =>
        (if has_version V1 l then [(3, enc_scripts_set_by_version V1 l)] else []) ++
        (if has_version V2 l then [(6, enc_scripts_set_by_version V2 l)] else []) ++
        (if has_version V3 l then [(7, enc_scripts_set_by_version V3 l)] else [])
    | None => []
-   end) ++
+   end).
+Definition ws_fields (w : witness_set) : list (N * bytes) :=
+  early_fields w ++
   (match ws_plutus_data w with
    | Some d => if is_nil (pl_elems d) then [] else [(4, serialize_as_set false d)]
    | None => []
@@ -339,20 +369,31 @@ Definition hash_auxiliary_data (a : aux_data) : bytes := H (enc_aux a).
 (* the part of TransactionBuilder the property speaks about.  Each sub-builder is represented by what its
    get_plutus_witnesses / get_plutus_input_scripts returns (redeemer tag and index already assigned: property C10)
    — [] when the sub-builder is not set or has no Plutus witness. *)
+(* one sub-builder as far as this property goes *)
+Record sub_state := mk_sub {
+  ss_witnesses : list witness;     (* what get_plutus_witnesses / get_plutus_input_scripts returns *)
+  ss_stale : list lang;            (* languages of Plutus witnesses still registered but NOT returned: an input added again as
+                                      a key input keeps its earlier script witness in required_witnesses.scripts;
+                                      get_used_plutus_lang_versions still sees it (inputs and collateral only) *)
+  ss_native : list bytes }.        (* what get_native_scripts / get_native_input_scripts returns, each script as written *)
+Definition sub_empty : sub_state := mk_sub [] [] [].
+
 Record builder := mk_builder {
-  b_inputs : list witness;
-  b_collateral : list witness;
+  b_in : sub_state; b_col : sub_state; b_mi : sub_state; b_ce : sub_state; b_wd : sub_state; b_vo : sub_state; b_pr : sub_state;
   b_collateral_len : N;                (* number of collateral inputs *)
-  b_mint : list witness;
-  b_certs : list witness;
-  b_withdrawals : list witness;
-  b_votes : list witness;
-  b_proposals : list witness;
   b_extra_datums : option (list pdata);
   b_script_data_hash : option bytes;
   b_aux : option aux_data }.
+Definition b_inputs (b : builder) := ss_witnesses (b_in b).
+Definition b_collateral (b : builder) := ss_witnesses (b_col b).
+Definition b_mint (b : builder) := ss_witnesses (b_mi b).
+Definition b_certs (b : builder) := ss_witnesses (b_ce b).
+Definition b_withdrawals (b : builder) := ss_witnesses (b_wd b).
+Definition b_votes (b : builder) := ss_witnesses (b_vo b).
+Definition b_proposals (b : builder) := ss_witnesses (b_pr b).
 
-Definition builder_new : builder := mk_builder [] [] 0 [] [] [] [] [] None None None.
+Definition builder_new : builder :=
+  mk_builder sub_empty sub_empty sub_empty sub_empty sub_empty sub_empty sub_empty 0 None None None.
 
 Inductive sub := SubInputs | SubCollateral | SubMint | SubCerts | SubWithdrawals | SubVotes | SubProposals.
 
@@ -360,14 +401,28 @@ Inductive sub := SubInputs | SubCollateral | SubMint | SubCerts | SubWithdrawals
 Definition all_witnesses (b : builder) : list witness :=
   b_inputs b ++ b_collateral b ++ b_mint b ++ b_certs b ++ b_withdrawals b ++ b_votes b ++ b_proposals b.
 
-(* get_used_plutus_lang_versions of one sub-builder: a BTreeSet of the languages of its witnesses' script sources *)
-Definition sub_langs (ws : list witness) : list lang := filter (fun l => mem_lang l (map w_lang ws)) all_langs.
-(* used_langs.append(&mut sub.get_used_plutus_lang_versions()) for the seven sub-builders: the union of the seven
-   BTreeSets, iterated in the derived order of Language *)
-Definition used_langs (b : builder) : list lang :=
+(* get_used_plutus_lang_versions of one sub-builder: a BTreeSet of the languages of the script sources of ALL the
+   Plutus witnesses it has registered — the returned ones and the stale ones; [counted] = whether the stale ones
+   end up in calc_script_data_hash's set (switch stale_langs_counted) *)
+Definition sub_langs_gen (counted : bool) (s : sub_state) : list lang :=
+  filter (fun l => mem_lang l (map w_lang (ss_witnesses s)) || (counted && mem_lang l (ss_stale s))) all_langs.
+(* for the inputs and the collateral the language set is appended only `if let Some(..) = get_plutus_input_scripts()`,
+   i.e. when at least one Plutus witness is returned *)
+Definition inputs_langs_gen (counted : bool) (s : sub_state) : list lang :=
+  if is_nil (ss_witnesses s) then [] else sub_langs_gen counted s.
+(* used_langs.append(&mut sub.get_used_plutus_lang_versions()) for the seven sub-builders (then, since the fix,
+   used_langs.retain(language of some collected witness)): the union, iterated in the derived order of Language *)
+Definition used_langs_gen (counted : bool) (b : builder) : list lang :=
   filter (fun l => existsb (mem_lang l)
-            [sub_langs (b_inputs b); sub_langs (b_collateral b); sub_langs (b_mint b); sub_langs (b_certs b);
-             sub_langs (b_withdrawals b); sub_langs (b_votes b); sub_langs (b_proposals b)]) all_langs.
+            [inputs_langs_gen counted (b_in b); inputs_langs_gen counted (b_col b); sub_langs_gen counted (b_mi b);
+             sub_langs_gen counted (b_ce b); sub_langs_gen counted (b_wd b); sub_langs_gen counted (b_vo b);
+             sub_langs_gen counted (b_pr b)]) all_langs.
+Definition used_langs := used_langs_gen stale_langs_counted.
+
+(* get_combined_native_scripts: inputs, collateral, mint, certificates, withdrawals, votes (the proposal builder has
+   no native-script entry point), in this order, without de-duplication *)
+Definition combined_native (b : builder) : list bytes :=
+  ss_native (b_in b) ++ ss_native (b_col b) ++ ss_native (b_mi b) ++ ss_native (b_ce b) ++ ss_native (b_wd b) ++ ss_native (b_vo b).
 
 (* the extra-datum step shared (textually) by calc_script_data_hash and get_witness_set *)
 Definition add_extra (datums : option plutus_list) (extra : option (list pdata)) : option plutus_list :=
@@ -384,20 +439,20 @@ Fixpoint retain_or_fail (cm : costmdls) (ls : list lang) (acc : costmdls) : resu
   end.
 
 Definition set_hash (b : builder) (h : option bytes) : builder :=
-  mk_builder (b_inputs b) (b_collateral b) (b_collateral_len b) (b_mint b) (b_certs b) (b_withdrawals b) (b_votes b)
-             (b_proposals b) (b_extra_datums b) h (b_aux b).
+  mk_builder (b_in b) (b_col b) (b_mi b) (b_ce b) (b_wd b) (b_vo b) (b_pr b) (b_collateral_len b) (b_extra_datums b) h (b_aux b).
 Definition set_aux (b : builder) (a : option aux_data) : builder :=
-  mk_builder (b_inputs b) (b_collateral b) (b_collateral_len b) (b_mint b) (b_certs b) (b_withdrawals b) (b_votes b)
-             (b_proposals b) (b_extra_datums b) (b_script_data_hash b) a.
+  mk_builder (b_in b) (b_col b) (b_mi b) (b_ce b) (b_wd b) (b_vo b) (b_pr b) (b_collateral_len b) (b_extra_datums b)
+             (b_script_data_hash b) a.
 
 (* the preimage calc_script_data_hash hashes (None = nothing to hash: the stored hash is left as it is) *)
-Definition calc_preimage (b : builder) (cm : costmdls) : result (option bytes) :=
+Definition calc_preimage_gen (counted : bool) (b : builder) (cm : costmdls) : result (option bytes) :=
   let '(_, datums, reds) := collect (all_witnesses b) in
-  let* retained := retain_or_fail cm (used_langs b) cm_empty in
+  let* retained := retain_or_fail cm (used_langs_gen counted b) cm_empty in
   let datums := add_extra datums (b_extra_datums b) in
   if is_some datums || negb (is_nil (rs_list reds)) || negb (cm_len retained =? 0)
   then Ok (Some (script_data_preimage reds retained datums))
   else Ok None.
+Definition calc_preimage := calc_preimage_gen stale_langs_counted.
 
 Definition calc_script_data_hash (b : builder) (cm : costmdls) : result builder :=
   let* p := calc_preimage b cm in
@@ -408,7 +463,7 @@ Definition calc_script_data_hash (b : builder) (cm : costmdls) : result builder 
 
 (* get_witness_set *)
 Definition get_witness_set (b : builder) : witness_set :=
-  let wit := ws_new in
+  let wit := set_native_scripts ws_new (combined_native b) in
   let '(wit, all_datums) :=
     match all_witnesses b with
     | [] => (wit, None)
@@ -422,9 +477,9 @@ Definition get_witness_set (b : builder) : witness_set :=
   | None => wit
   end.
 
-(* has_plutus_inputs: collateral is not looked at *)
+(* has_plutus_inputs: collateral is not looked at; the inputs' registered witnesses are, returned or not *)
 Definition has_plutus_inputs (b : builder) : bool :=
-  negb (is_nil (b_inputs b)) || negb (is_nil (b_mint b)) || negb (is_nil (b_certs b)) ||
+  negb (is_nil (b_inputs b)) || negb (is_nil (ss_stale (b_in b))) ||      (* TxInputsBuilder::has_plutus_scripts sees stale witnesses too *) negb (is_nil (b_mint b)) || negb (is_nil (b_certs b)) ||
   negb (is_nil (b_withdrawals b)) || negb (is_nil (b_votes b)) || negb (is_nil (b_proposals b)).
 
 (* the transaction as far as this property goes *)
@@ -446,9 +501,9 @@ Definition build_tx (b : builder) : result tx :=
 (* ------------------------------------------------------------------ operations (histories) *)
 
 Inductive op :=
-| OpSetSub (k : sub) (ws : list witness) (n : N)   (* set_inputs / set_collateral (n = number of inputs) / set_mint_builder /
+| OpSetSub (k : sub) (ss : sub_state) (n : N)      (* set_inputs / set_collateral (n = number of inputs) / set_mint_builder /
                                                       set_certs_builder / set_withdrawals_builder / set_voting_builder /
-                                                      set_voting_proposal_builder, add_*_input …: the sub-builder now reports ws *)
+                                                      set_voting_proposal_builder, add_*_input …: the sub-builder is now in state ss *)
 | OpAddExtraDatum (d : pdata)
 | OpCalc (cm : costmdls)
 | OpSetHash (h : bytes)
@@ -459,21 +514,20 @@ Inductive op :=
 | OpAddMetadatum (k : N) (v : bytes)        (* add_metadatum, add_json_metadatum[_with_schema] (converted value) *)
 | OpSetAuxDecoded (w : aux_wire).          (* set_auxiliary_data(AuxiliaryData::from_bytes(enc_wire w)); nothing when decoding fails *)
 
-Definition set_sub (b : builder) (k : sub) (ws : list witness) (n : N) : builder :=
-  let m := mk_builder in
+Definition set_sub (b : builder) (k : sub) (ss : sub_state) (n : N) : builder :=
+  let r := fun i c m e w v p cl => mk_builder i c m e w v p cl (b_extra_datums b) (b_script_data_hash b) (b_aux b) in
   match k with
-  | SubInputs => m ws (b_collateral b) (b_collateral_len b) (b_mint b) (b_certs b) (b_withdrawals b) (b_votes b) (b_proposals b) (b_extra_datums b) (b_script_data_hash b) (b_aux b)
-  | SubCollateral => m (b_inputs b) ws n (b_mint b) (b_certs b) (b_withdrawals b) (b_votes b) (b_proposals b) (b_extra_datums b) (b_script_data_hash b) (b_aux b)
-  | SubMint => m (b_inputs b) (b_collateral b) (b_collateral_len b) ws (b_certs b) (b_withdrawals b) (b_votes b) (b_proposals b) (b_extra_datums b) (b_script_data_hash b) (b_aux b)
-  | SubCerts => m (b_inputs b) (b_collateral b) (b_collateral_len b) (b_mint b) ws (b_withdrawals b) (b_votes b) (b_proposals b) (b_extra_datums b) (b_script_data_hash b) (b_aux b)
-  | SubWithdrawals => m (b_inputs b) (b_collateral b) (b_collateral_len b) (b_mint b) (b_certs b) ws (b_votes b) (b_proposals b) (b_extra_datums b) (b_script_data_hash b) (b_aux b)
-  | SubVotes => m (b_inputs b) (b_collateral b) (b_collateral_len b) (b_mint b) (b_certs b) (b_withdrawals b) ws (b_proposals b) (b_extra_datums b) (b_script_data_hash b) (b_aux b)
-  | SubProposals => m (b_inputs b) (b_collateral b) (b_collateral_len b) (b_mint b) (b_certs b) (b_withdrawals b) (b_votes b) ws (b_extra_datums b) (b_script_data_hash b) (b_aux b)
+  | SubInputs => r ss (b_col b) (b_mi b) (b_ce b) (b_wd b) (b_vo b) (b_pr b) (b_collateral_len b)
+  | SubCollateral => r (b_in b) ss (b_mi b) (b_ce b) (b_wd b) (b_vo b) (b_pr b) n
+  | SubMint => r (b_in b) (b_col b) ss (b_ce b) (b_wd b) (b_vo b) (b_pr b) (b_collateral_len b)
+  | SubCerts => r (b_in b) (b_col b) (b_mi b) ss (b_wd b) (b_vo b) (b_pr b) (b_collateral_len b)
+  | SubWithdrawals => r (b_in b) (b_col b) (b_mi b) (b_ce b) ss (b_vo b) (b_pr b) (b_collateral_len b)
+  | SubVotes => r (b_in b) (b_col b) (b_mi b) (b_ce b) (b_wd b) ss (b_pr b) (b_collateral_len b)
+  | SubProposals => r (b_in b) (b_col b) (b_mi b) (b_ce b) (b_wd b) (b_vo b) ss (b_collateral_len b)
   end.
 
 Definition add_extra_witness_datum (b : builder) (d : pdata) : builder :=
-  mk_builder (b_inputs b) (b_collateral b) (b_collateral_len b) (b_mint b) (b_certs b) (b_withdrawals b) (b_votes b)
-             (b_proposals b)
+  mk_builder (b_in b) (b_col b) (b_mi b) (b_ce b) (b_wd b) (b_vo b) (b_pr b) (b_collateral_len b)
              (Some (match b_extra_datums b with Some l => l ++ [d] | None => [d] end))
              (b_script_data_hash b) (b_aux b).
 
@@ -494,7 +548,7 @@ Definition add_metadatum (b : builder) (k : N) (v : bytes) : builder := set_aux 
 (* one operation; calc may fail (missing cost model), in which case the builder is unchanged *)
 Definition step (b : builder) (o : op) : builder * bool :=
   match o with
-  | OpSetSub k ws n => (set_sub b k ws n, true)
+  | OpSetSub k ss n => (set_sub b k ss n, true)
   | OpAddExtraDatum d => (add_extra_witness_datum b d, true)
   | OpCalc cm => match calc_script_data_hash b cm with Ok b' => (b', true) | _ => (b, false) end
   | OpSetHash h => (set_hash b (Some h), true)
